@@ -55,6 +55,9 @@ structure RCfg where
   hasRedis : Bool
   maximumTtl : Int
 
+/-- AsyncStore: `if ttlMs <= 10 { return }` -/
+abbrev redisTtlTooShort (ttlMs : Int) : Bool := decide (ttlMs ≤ 10)
+
 /-- cacheCtl.Store with both backends. `now`, `delay` as in Ttl.cacheStore (one `time.Until` instant for both). -/
 def rStore (clock : Nat → Nat) (cfg : RCfg) (st : RState) (k : Nat) (resp : Option Msg) (now delay id : Nat) : RState :=
   match store (cfg.hasMem || cfg.hasRedis) resp cfg.maximumTtl with
@@ -65,7 +68,7 @@ def rStore (clock : Nat → Nat) (cfg : RCfg) (st : RState) (k : Nat) (resp : Op
     -- AsyncStore: ttlMs := time.Until(expireTime).Milliseconds(); if ttlMs <= 10 { return }
     let ttlMs : Int := (expire - ((now + delay : Nat) : Int)).tdiv 1000000
     let pending :=
-      if cfg.hasRedis && decide (10 < ttlMs) then
+      if cfg.hasRedis && !redisTtlTooShort ttlMs then
         st.pending ++ [⟨k, floorSec now, floorSec expire.toNat, c.msg, id, ttlMs, c.setNX, now + delay⟩]
       else st.pending
     { st with mem := mem, pending := pending }
